@@ -67,7 +67,7 @@ Section SetItem.
   Definition m_set_or_update (m : arr) (idx : list item) (v : arr) : res (list wr) :=
     if is_empty_idx idx then m_update fuel' m v else m_setitem m idx v.
 
-  (* def assign(converted_idx, value=value): the recursive call assign(item) re-binds the DEFAULT, i.e. the full value *)
+  (* def assign(converted_idx, value=value), recursive on the nested list of an integer tensor of rank >= 2 *)
   Fixpoint assign (parts : list arr) (unbind_dim : nat) (sub : list item) (full : arr) (t : nest) : res (list wr) :=
     match t with
     | NLeaf _ => Raised
@@ -84,7 +84,9 @@ Section SetItem.
                       else rbind (member parts j) (fun m => m_setitem m sub vi)) (fun w =>
                rbind (go r (S i)) (fun ws => Ok (w ++ ws))))
            | (NList _ as t') :: r =>
-               rbind (assign parts unbind_dim sub full t') (fun w => rbind (go r (S i)) (fun ws => Ok (w ++ ws)))
+               (* assign(item, value[i]) (fix C08-D34; before, assign(item) re-bound the default: the full value) *)
+               rbind (of_opt (nth_error vs i)) (fun vi =>
+               rbind (assign parts unbind_dim sub vi t') (fun w => rbind (go r (S i)) (fun ws => Ok (w ++ ws))))
            end) l 0%nat)
     end.
 
@@ -118,7 +120,7 @@ Section SetItem.
           else
             rbind (zip_strict es vs) (fun ev =>
             rbind (rmap (fun p => let '((i, sub), vi) := p in
-                                  rbind (lz_get self (repeat (ISl None None None) (sp_mask_loc sp) ++ [IInt i])) (fun x =>
+                                  rbind (lz_get self (repeat (ISl None None None) (cursor_at index (sp_mask_loc sp)) ++ [IInt i])) (fun x =>
                                   m_setitem x sub vi)) ev) (fun ws => Ok (concat ws)))))
     end).
 End SetItem.
